@@ -30,7 +30,7 @@ EXTRA_TRUSTED = [
 ]
 
 REQ = "Require Import D42.Combinators."
-KEYPOOL = ["a", "b", "c", "id", 1, 0, None, ""]
+KEYPOOL = ["a", "b", "c", "id", 1, 0, None, "", ("a", "b"), (0, 1), ("id",), (), b"k", 1.5]
 
 
 def _ns():
